@@ -873,6 +873,8 @@ class Ana:
                 add(m, "asm_unmap_exit")
             elif "syscall" in ins:
                 add(m, "asm?")
+        for m in re.finditer(r"(?<![\w.])(?:\$?\w+::)*(?:e?print(?:ln)?|dbg)!\(", s):
+            add(m, "print_lock")          # tiny-std's print macros take the non-reentrant stdout / stderr lock, then format their arguments
         for m in re.finditer(r"process::exit\(|(?<![\w.])exit\(", s):
             add(m, "exit_process")
         for m in re.finditer(r"(?<=[\w)\]])\?(?![A-Za-z])", s):
@@ -1196,7 +1198,7 @@ VOCAB = ["tsm_alloc", "tsm_alloc_zeroed", "init_flag_false", "init_word", "init_
          "try_return", "tls_box", "clone", "clone_neg", "clone_nonneg", "drop_tls", "munmap", "drop_closure", "tsm_dealloc", "ret_err",
          "ok_handle", "return", "end", "call_func", "write_slot", "cas", "cas_lost", "cas_won", "set_tid_0", "drop_value", "tls_dealloc",
          "tls_read", "is_thread", "is_main", "asm_unmap_exit", "exit_process", "wait", "futex_wait", "load", "read_slot", "forget",
-         "word_eq", "word_ne", "break", "continue"]
+         "word_eq", "word_ne", "break", "continue", "print_lock"]
 LEAN_OP = {"return": "ret", "end": "fin", "break": "brk", "continue": "cont"}
 
 
